@@ -40,6 +40,13 @@ HASH = 'SHA3-256 is a parameter of the model (items enter as their eight LE word
 FS = 'file system as used by the store: POSIX semantics of write/fsync/link/rename/unlink; files under /var/tmp'
 STEP = 'the flush and compaction loops are single-stepped through the cfg(rescrv_blue_verif) hooks (wait replaced by return-to-caller; loop bodies are the real ones)'
 
+C15_PARTIAL = [
+    'fast path = slow path of v64::unpack is not a theorem: the model has one varint decoder (decVarintAux, the additive form of unpack_size); the unrolled and the byte-at-a-time decoder are both compared with it on every generated buffer, and with each other by the oracle',
+    'pack_sz = length is a theorem for varints only (varintSz_eq); for messages the model computes the size as the length of its own packing and the harness compares the real pack_sz, the real byte count and the model byte count on every packed value',
+    'SError as the error type of Result (its S-expression text format belongs to the handled crate) is not modelled: the family uses a derived message as E',
+    'unknown_fields_skipped is stated for insertion between complete fields of a struct body whose other fields are well-formed packings; insertion into arbitrary (malformed) buffers is covered by correspondence only',
+]
+
 PROPS = {
     'C01': {
         'trusted': [STEP, 'dumped store states are read back through Sst::cursor / MemTable::cursor of the implementation'],
@@ -88,5 +95,15 @@ PROPS = {
         'partial': [],
         'level_text': 'GarbageCollector::next over the Versions/Expires/Any/All determiner tree (now a parameter), the nom policy parser incl. its printed error chain, and the compaction loop over the merging-cursor model cut into output files are executable Lean models.  Theorems (Blue.Props.C05): for EVERY policy, now and input the collector output is a sub-list of its input; the determiner calls depend on the input alone and any(..)/all(..) decide pointwise as union/intersection of their members; on sorted input the collector works key by key with a fresh determiner (carried state and the initial vec![] key are harmless); per key the retained set is a prefix: either the key keeps its newest value under the oldest tombstone above it, or the whole key goes; the newest value is kept by every policy that selects newest versions (versions>=1; ttl at now<=micros, always so in lsmtk where now=0 is regenerated from source; any with such a member; all of such members); keys with only tombstones are dropped; plus the versions=N theorems gc_runs/newest_value_kept/tombstone_stays/gcGroup_exhausted.  Non-GC compaction: the compaction loop over the merging-cursor model reads exactly the merged list M (merged_is_M, from merging_refines), cutting M at ANY cut vector and concatenating is a permutation of the union of the inputs (pipeline_conserves, compaction_conserves, children_perm_merged, cut_flatten), hence reads at every timestamp are unchanged (compaction_reads_unchanged).  Correspondence: parse results and error chains, retained (key,ts) lists, and output files byte-compared on seeded cases through ReferenceCursor, MergingCursor<ReferenceCursor> and real SSTs -> MergingCursor<SstCursor> -> lsmtk\'s GC loop -> SstMultiBuilder.  Oracle (independent of the model): the definitional reading of the policy language (versions = values + oldest tombstone of each run; N newest / fresher than threshold / union / intersection; then tombstones that shadow nothing retained are dropped), a hand-written grammar for the parser, sub-list, current value of every key unchanged whenever the policy selects newest versions, discard setsum = sum of framings of dropped entries, inputs = outputs + discard; for splits: multiset of (key,ts,value|tombstone) conserved, outputs sorted, ranges ordered, per-file setsum = content.',
         'level_note': 'Trusted: Lean kernel; axioms propext, Classical.choice, Quot.sound; the nom semantics transcription; correspondence is agreement on generated cases only.  Observations (not defects under the property statement): O-3 lsmtk passes now=0 so ttl policies never expire; any()/any(,)/all() parse, and any() discards every entry including current values; trailing input after a policy yields a ParseError whose text is empty; "versions = N" keeps at most N versions and fewer when a tombstone+value pair does not fit (the dropped tombstone shadows nothing at the last level).',
+    },
+    'C15': {
+        'trusted': ['UTF-8 validity (std::str::from_utf8) is modelled by a hand-written validator (Unicode table 3-7), cross-checked against std on generated strings',
+                    'f32/f64 are carried as bit patterns (to_bits / from_bits are not modelled)'],
+        'assumptions': ['64-bit target (usize = u64)', 'every nested frame and byte string is shorter than 2^64 bytes',
+                        'field / variant numbers of a message type are valid and pairwise distinct (the derive macro rejects invalid numbers at compile time; duplicates are unreachable match arms)',
+                        'the model mirrors the tree with the repairs of D-21 (message<M>::unpack returns wrong-length instead of asserting), D-C15-float (float declares wire type 5) and D-C15-named (a named enum variant skips unknown fields); each is tied to the source by a ConstsTie theorem that fails on the unrepaired tree'],
+        'partial': C15_PARTIAL,
+        'level_text': 'Round trip for every u64 varint (with size), zig-zag, fixed-width, every field type on every value of its Rust type, tags with their three rejection classes, and message_roundtrip for the whole schema language (structs and enums over all 18 field types, plain / Option / Vec fields, nested messages, unit / tuple / named variants, Result) are Lean theorems about an executable interpreter of what #[derive(Message)] generates; unknown fields inserted between the fields of a struct are proved not to change the result, non-canonically encoded varint fields are proved to be rejected, decoding is total by construction. The interpreter is tied to the real buffertk / prototk / prototk_derive code by byte-exact comparison of packed bytes, pack_sz and decode results (value or error class) on a family of 17 derived types, on structure-aware mutations of valid encodings, on every prefix of valid encodings and on all byte strings up to length 2 (3 in the thorough tier); an independent protobuf encoder in the harness, a round-trip oracle, an unknown-field oracle and a no-panic oracle evaluate the property directly on the implementation.',
+        'level_note': 'Trusted: Lean kernel; axioms propext, Classical.choice, Quot.sound; hand-written model + correspondence on generated cases only; UTF-8 validator and float bit patterns as stated. Wire-type numbers, field-number limits, every field type\'s wire type, the ten-byte varint limit and the Result tags are regenerated from the Rust source each run. Not theorems: fast = slow varint path, message pack_sz (see partial).',
     },
 }
